@@ -203,10 +203,17 @@ func c04Prop(t *testing.T, k *verifkit.Kit) func(c c04Case) error {
 			}
 		}
 		// 2. the consistency check's own RA (hook)
-		for _, ours := range r.Hooks {
+		for i, ours := range r.Hooks {
 			paths["consistency-check"] = true
 			if ours != c.Sc.Cfg.expect(true, false) && ours != c.Sc.Cfg.expect(false, false) {
 				return verifkit.Violf("C04/consistency-check-ra-wrong", "own RA used for the consistency check: %s\n%s", ours, tl)
+			}
+			// ... and it is the RA of that moment: the forwarding state is read when the other router's RA is handled
+			// (with slow state reads the hook fires later than the read: then either value within the delay is accepted)
+			if i < len(r.HookAt) && c.Sc.StateDelayNS == 0 && c.Sc.StateAfterNS == 0 {
+				if f, amb := fwdAt(c, "eth0", r.HookAt[i]); !amb && ours != c.Sc.Cfg.expect(f, false) {
+					return verifkit.Violf("C04/consistency-check-ra-stale", "own RA used for the consistency check at %v with forwarding=%v: %s\n%s", r.HookAt[i], f, ours, tl)
+				}
 			}
 		}
 		for _, rd := range r.Reads {
